@@ -89,7 +89,10 @@ def generic_plan(prop, tier, plan, worker, replay=None, extra=None, post=None):
         if tiers and tier not in tiers:
             continue
         what = e.pop("what")
-        results.append(rc.run_exec(tr, what, emit=True, backends=True, **e))
+        r_ = rc.run_exec(tr, what, emit=True, backends=True, **e)       # an emit entry may carry invariants: laws and cases from one run
+        if r_.violated or r_.deadlock:
+            rc.law_violation(vd, r_, what)
+        results.append(r_)
     sim = plan.get("sim")
     if sim:
         sim = dict(sim)
@@ -160,10 +163,6 @@ BUILDER_LAWS = ["HistOK", "BuilderMeaning", "BuilderAcceptance"]
 
 PLAN_C26 = {
     "mc": [
-        dict(what="BuilderAcceptance: every rule-breaking and rule-conforming step after every 1-step prefix (one table, no rows)",
-             fams=UNARY, rows=0, steps=2, level=1, genbad=True, invariants=BUILDER_LAWS, **T1),
-        dict(what="BuilderAcceptance with joins: two tables, prefixes of <= 2 steps (no rows)",
-             fams=["order", "cols", "stack", "binary"], rows=0, steps=3, level=1, genbad=True, invariants=BUILDER_LAWS, **T12),
         dict(what="deviation model: select_columns collapse validated against the source (D2) must break BuilderAcceptance",
              fams=["cols"], rows=0, steps=2, level=1, genbad=True, invariants=BUILDER_LAWS, bdev="BDevSelectCollapse",
              must_violate=("BuilderAcceptance",), **T1),
@@ -172,10 +171,11 @@ PLAN_C26 = {
              bdev="BDevJoinCheck", must_violate=("BuilderAcceptance",), **T12),
     ],
     "emit": [
-        dict(what="all behaviours of 2 calls with rule-breaking steps, one table", fams=UNARY, rows=0, steps=2, level=1,
-             genbad=True, one_in=3, **T1),
-        dict(what="all behaviours of 3 calls around joins with rule-breaking steps, two tables",
-             fams=["order", "cols", "stack", "binary"], rows=0, steps=3, level=1, genbad=True, one_in=6, **T12),
+        dict(what="BuilderAcceptance + all behaviours of 2 calls with rule-breaking steps, one table (every rule-breaking and "
+                  "rule-conforming step after every 1-step prefix)", fams=UNARY, rows=0, steps=2, level=1,
+             genbad=True, one_in=3, invariants=BUILDER_LAWS, **T1),
+        dict(what="BuilderAcceptance + all behaviours of 3 calls around joins with rule-breaking steps, two tables",
+             fams=["order", "cols", "stack", "binary"], rows=0, steps=3, level=1, genbad=True, one_in=6, invariants=BUILDER_LAWS, **T12),
     ],
     "sim": dict(what="random behaviours of 4 calls incl. rule-breaking steps", num=(2500, 25000), rows=0, steps=4, genbad=True, **SIMT),
     "rule": "behaviours of Exec.tla with GenBad: after every valid prefix each construction rule is broken in turn "
@@ -309,27 +309,23 @@ TB = dict(tabcols="MCB_TabCols", colvals="MCB_ColVals")
 C06F = ["extend", "extend2", "wextend", "cols", "order"]
 PLAN_C06 = {
     "mc": [
-        dict(what="BuilderMeaning/BuilderAcceptance: all 2-call sequences of extend / 2-assignment extend / select / drop / order_rows, <= 1 row",
-             fams=["extend", "extend2", "cols", "order"], rows=1, steps=2, level=1, invariants=BUILDER_LAWS, timeout=200, **TB),
-        dict(what="BuilderMeaning/BuilderAcceptance: all 3-call sequences of 2-assignment extends and order_rows, <= 1 row",
-             fams=["extend2", "order"], rows=1, steps=3, level=1, invariants=BUILDER_LAWS, timeout=300, **TB),
         dict(what="BuilderMeaning/BuilderAcceptance: all 3-call sequences of extend / select / drop / order_rows, <= 1 row",
              fams=["extend", "cols", "order"], rows=1, steps=3, level=1, invariants=BUILDER_LAWS, timeout=600, tier=("thorough",), **TB),
         dict(what="BuilderMeaning: all 2-call sequences incl. windowed extends and limits, <= 2 rows",
              fams=["extend", "wextend", "cols", "order"], rows=2, steps=2, level=1, invariants=BUILDER_LAWS, timeout=900,
              tier=("thorough",), **TB),
-        dict(what="BuilderMeaning: two consecutive windowed extends over two-column orderings in both priorities, <= 2 rows",
-             fams=["wo2"], rows=2, steps=2, level=0, invariants=BUILDER_LAWS, tabcols="MCB_TabCols", colvals="MCW_ColVals", timeout=300),
         dict(what="deviation model: merge with a re-assigned column ignoring the other assignments (D1) must break BuilderMeaning",
              fams=["extend2"], rows=1, steps=2, level=1, invariants=BUILDER_LAWS, bdev="BDevMergeCommon",
              must_violate=("BuilderMeaning",), **TB),
     ],
     "emit": [
-        MICRO_W2, micro(2, 10),
-        dict(what="all 2-call sequences of extend / 2-assignment extend / select / drop / order_rows, <= 1 row (sampled)",
-             fams=["extend", "extend2", "cols", "order"], rows=1, steps=2, level=1, one_in=40, genbad=True, timeout=200, **TB),
-        dict(what="all 3-call sequences of 2-assignment extends and order_rows, <= 1 row (sampled)",
-             fams=["extend2", "order"], rows=1, steps=3, level=1, one_in=500, timeout=300, **TB),
+        dict(MICRO_W2, invariants=BUILDER_LAWS), dict(micro(2, 10), invariants=BUILDER_LAWS),
+        dict(what="BuilderMeaning/BuilderAcceptance + all 2-call sequences of extend / 2-assignment extend / select / drop / "
+                  "order_rows, <= 1 row (sampled)",
+             fams=["extend", "extend2", "cols", "order"], rows=1, steps=2, level=1, one_in=40, genbad=True, timeout=200,
+             invariants=BUILDER_LAWS, **TB),
+        dict(what="BuilderMeaning/BuilderAcceptance + all 3-call sequences of 2-assignment extends and order_rows, <= 1 row (sampled)",
+             fams=["extend2", "order"], rows=1, steps=3, level=1, one_in=500, timeout=300, invariants=BUILDER_LAWS, **TB),
     ],
     "sim": dict(what="random pipelines of 4 calls biased to consecutive extends / selections / orderings",
                 fams=["extend", "extend2", "wextend", "cols", "order", "select_rows", "stack", "binary"],
@@ -1080,7 +1076,7 @@ PLAN_C04 = {
             "initial_commas, use_cte_elim and two indents when the pipeline re-uses a sub-pipeline or has consecutive extends (a "
             "5-combination cover otherwise), de-duplicated by text, executed, and every result compared with the first; "
             "non-trivial = shared sub-pipeline or consecutive extends, and some input has rows",
-    "limit": (700, 12000),
+    "limit": (500, 12000),
     "assumptions": ASSUME_REL + ["PostgreSQL-dialect text is executed on SQLite 3.40 (no PostgreSQL engine in the sandbox)",
                                  "statements that raise under an option combination are counted, not compared"],
 }
